@@ -239,70 +239,7 @@ func checkC10(cx *Ctx, r *Report) {
 		fns = append(fns, f)
 	}
 	sort.Slice(fns, func(i, j int) bool { return w.FuncKey(fns[i]) < w.FuncKey(fns[j]) })
-	nStorage := 0
-	for _, fn := range fns {
-		hasFallible := false
-		for _, c := range callsIn(fn) {
-			if call, ok := c.(*ssa.Call); ok {
-				if _, has, _ := errResult(call); has && cx.errDisciplined(call) {
-					hasFallible = true
-				}
-				if storageMethod(c) != "" {
-					nStorage++
-				}
-			}
-		}
-		if !hasFallible {
-			continue
-		}
-		res := fn.Signature.Results()
-		key := w.FuncKey(fn)
-		if res.Len() > 0 && isErrorType(res.At(res.Len()-1).Type()) {
-			cx.checkErrPropagation(r, "R-ERR", key, fn)
-		} else if res.Len() == 0 {
-			cx.checkErrReply(r, "R-ERR", key, fn)
-		} else {
-			// functions with results but no error (e.g. sha1Sum): any fallible call must still be tested
-			for _, c := range callsIn(fn) {
-				call, ok := c.(*ssa.Call)
-				if !ok {
-					continue
-				}
-				e, has, discarded := errResult(call)
-				if !has || !cx.errDisciplined(call) {
-					continue
-				}
-				nonNil, tested := fx.errBranches(e)
-				bad := ""
-				if discarded || !tested {
-					bad = "error of " + calleeName(call) + " ignored in a function that cannot report it"
-				} else if aps, okp := fx.atomPaths(fn, 4096); okp {
-					// the function cannot report the failure: on the failing branch it may only return zero values
-					// (never the sibling results of the failed call or anything computed from them)
-					for i := range aps {
-						p := &aps[i]
-						through := false
-						for _, nb := range nonNil {
-							if p.Has(nb) {
-								through = true
-							}
-						}
-						if !through || p.Ret == nil {
-							continue
-						}
-						for ri := range p.Ret.Results {
-							rv := fx.retVal(p, ri)
-							if _, isC := rv.(*ssa.Const); isC {
-								continue // a constant verdict / zero value: nothing of the failed call is passed on
-							}
-							bad = "after " + shortCallee(calleeName(call)) + " failed the function goes on and returns " + fx.path(rv) + " as if nothing had happened (" + w.InstrPos(p.Ret) + ")"
-						}
-					}
-				}
-				r.Check(bad == "", "R-ERR", key+":"+shortCallee(calleeName(call)), w.InstrPos(call), "error tested; the failing branch returns only zero values", bad)
-			}
-		}
-	}
+	nStorage := cx.checkErrDiscipline(r, fns)
 	r.Check(nStorage >= 9, "R-ERR", "#storage-sites", "", fmt.Sprintf("%d storage call sites in handler-reachable code", nStorage), fmt.Sprintf("only %d storage call sites found in handler-reachable code (9 on the pinned tree): a site has become unreachable for the analysis", nStorage))
 
 	// --- callbacks are error replies -----------------------------------------------------
@@ -424,4 +361,86 @@ func checkC10(cx *Ctx, r *Report) {
 		r.Check(k.persist.Idx == len(k.ch.Steps)-1, "R-ORDER", "sso:persist-last", k.persist.Pos, "nothing that can fail follows persistence", "a step that can fail follows the persist step")
 	}
 	r.Min("R-ERR", 25)
+}
+
+// checkErrDiscipline (R-ERR) over a set of functions: every fallible call of a module function, closure, storage
+// method or standard decoder has its error tested (or handed on untested); the failing branch returns a non-nil
+// error / performs one error reply and reaches no success effect. Returns the number of storage call sites seen.
+func (cx *Ctx) checkErrDiscipline(r *Report, fns []*ssa.Function) int {
+	w, fx := cx.W, cx.Fx
+	nStorage := 0
+	for _, fn := range fns {
+		hasFallible := false
+		for _, c := range callsIn(fn) {
+			if call, ok := c.(*ssa.Call); ok {
+				if _, has, _ := errResult(call); has && cx.errDisciplined(call) {
+					hasFallible = true
+				}
+				if storageMethod(c) != "" {
+					nStorage++
+				}
+			}
+		}
+		if !hasFallible {
+			continue
+		}
+		res := fn.Signature.Results()
+		key := w.FuncKey(fn)
+		if res.Len() > 0 && isErrorType(res.At(res.Len()-1).Type()) {
+			cx.checkErrPropagation(r, "R-ERR", key, fn)
+		} else if res.Len() == 0 {
+			cx.checkErrReply(r, "R-ERR", key, fn)
+		} else {
+			// functions with results but no error (e.g. sha1Sum): any fallible call must still be tested
+			for _, c := range callsIn(fn) {
+				call, ok := c.(*ssa.Call)
+				if !ok {
+					continue
+				}
+				e, has, discarded := errResult(call)
+				if !has || !cx.errDisciplined(call) {
+					continue
+				}
+				nonNil, tested := fx.errBranches(e)
+				bad := ""
+				if discarded || !tested {
+					bad = "error of " + calleeName(call) + " ignored in a function that cannot report it"
+				} else if aps, okp := fx.atomPaths(fn, 4096); okp {
+					// the function cannot report the failure: on the failing branch it may only return zero values
+					// (never the sibling results of the failed call or anything computed from them)
+					for i := range aps {
+						p := &aps[i]
+						through := false
+						for _, nb := range nonNil {
+							if p.Has(nb) {
+								through = true
+							}
+						}
+						if !through || p.Ret == nil {
+							continue
+						}
+						for ri := range p.Ret.Results {
+							rv := fx.retVal(p, ri)
+							if _, isC := rv.(*ssa.Const); isC {
+								continue // a constant verdict / zero value: nothing of the failed call is passed on
+							}
+							bad = "after " + shortCallee(calleeName(call)) + " failed the function goes on and returns " + fx.path(rv) + " as if nothing had happened (" + w.InstrPos(p.Ret) + ")"
+						}
+					}
+				}
+				r.Check(bad == "", "R-ERR", key+":"+shortCallee(calleeName(call)), w.InstrPos(call), "error tested; the failing branch returns only zero values", bad)
+			}
+		}
+	}
+	return nStorage
+}
+
+// errDisciplineOfHandler: R-ERR over everything reachable from handler hk (steps, callbacks, helpers): a failing
+// call must end the step, so that nothing later in the chain works with the results of a call that failed.
+func (cx *Ctx) errDisciplineOfHandler(r *Report, hk string) {
+	h := cx.W.Func(hk)
+	if h == nil {
+		return
+	}
+	cx.checkErrDiscipline(r, cx.W.sortedFuncs(cx.W.scopeOf(h)))
 }
